@@ -28,6 +28,7 @@ import (
 	"strings"
 	"sync"
 	"time"
+	"unicode"
 
 	"golang.org/x/tools/go/ssa"
 )
@@ -104,6 +105,9 @@ func (c *racConv) val(t types.Type, v interface{}) Term {
 			if !ok || !ok2 {
 				c.fail("integer expected")
 				return tInt(0)
+			}
+			if u.Kind() == types.Int32 && n.IsInt64() {
+				c.e.racRunes = append(c.e.racRunes, n.Int64()) // rune values: the character-class functions are evaluated on them
 			}
 			return tBig(n)
 		}
@@ -455,7 +459,7 @@ func racEval(p *Program, fn *ssa.Function, fc *FuncC, t *racTry) (legal bool, re
 	ctx0 := e.ctx(pre, pre, nil)
 	var reqPlain, reqGhost []Term
 	for _, c := range fc.Req {
-		for _, cx := range p.conjuncts(c.E, false) {
+		for _, cx := range p.conjuncts(c.E, true) {
 			tm := ctx0.evalBool(cx)
 			if e.mentionsGhost(tm.S, map[string]bool{}) {
 				reqGhost = append(reqGhost, tm)
@@ -504,7 +508,7 @@ func racEval(p *Program, fn *ssa.Function, fc *FuncC, t *racTry) (legal bool, re
 		}
 		c1 := e.ctx(post, pre, extra)
 		for k, en := range fc.Ens {
-			for j, cx := range p.conjuncts(en.E, false) {
+			for j, cx := range p.conjuncts(en.E, true) {
 				tm, ok := func() (tm Term, ok bool) {
 					defer func() {
 						if r := recover(); r != nil {
@@ -517,6 +521,19 @@ func racEval(p *Program, fn *ssa.Function, fc *FuncC, t *racTry) (legal bool, re
 					continue
 				}
 				ens = append(ens, racClause{text: fmt.Sprintf("#%d.%d %s", k+1, j+1, exprString(cx)), tags: en.Tags, term: tm, ghost: e.mentionsGhost(tm.S, map[string]bool{})})
+			}
+		}
+	}
+	// the character classes of package unicode, evaluated on the runes of the dump
+	seenRune := map[int64]bool{}
+	for _, r := range e.racRunes {
+		if seenRune[r] {
+			continue
+		}
+		seenRune[r] = true
+		for name, f := range map[string]func(rune) bool{"isSpaceR": unicode.IsSpace, "isLetterR": unicode.IsLetter, "isDigitR": unicode.IsDigit} {
+			if e.usedUF[name] {
+				e.emit("(assert (= (uf_%s %s) %v))", name, tInt(r).S, f(rune(r)))
 			}
 		}
 	}
@@ -648,7 +665,7 @@ func racFunction(p *Program, name string) *racResult {
 					return
 				}
 				res.Legal++
-				if t.Hung {
+				if t.Hung && len(decTags(fc)) > 0 {
 					// the call did not return within the harness' deadline on an admitted input: the termination
 					// claims (decreases clauses) of the function are refuted by this execution
 					res.Refuted = append(res.Refuted, racRefuted{Clause: "terminates (every loop has a decreases clause)", Tags: decTags(fc), Try: t.Try, Seed: t.Seed, Kind: "hang", Pre: t.Pre})
